@@ -207,7 +207,8 @@ class C08(Prop):
     quick_examples = 900
     thorough_examples = 5000
     fuzz_runs = 8000
-    floors = {'collector': 0.25, 'synthetic': 0.25, 'auth': 0.15, 'sequence_attribute': 0.05, 'surrogate_text': 0.03}
+    floors = {'collector': 0.25, 'synthetic': 0.25, 'auth': 0.12, 'auth_basic': 0.03, 'sequence_attribute': 0.05,
+              'surrogate_text': 0.03}
 
     def strategy(self, tier):
         kinds = values.SCALAR_KINDS + values.CONTAINER_KINDS + ['bytes', 'badbytes', 'deque', 'slots', 'enum', 'obj', 'obj']
@@ -247,9 +248,10 @@ class C08(Prop):
         })
         auth = fd({
             'mode': st.just('auth'),
-            'kind': st.sampled_from(['none', 'empty_string', 'basic', 'basic', 'custom', 'custom_empty', 'custom_flaky',
-                                     'custom_flaky']),
-            'user': st.one_of(st.none(), TEXT), 'password': st.one_of(st.none(), TEXT),
+            'kind': st.one_of(*[st.just(k) for k in ['basic', 'none', 'basic', 'custom', 'empty_string', 'basic',
+                                                     'custom_empty', 'custom_flaky']]),
+            'user': st.one_of(st.none(), TEXT, st.just(''), st.just('bob')),
+            'password': st.one_of(st.none(), TEXT, st.just(''), st.just('pw')),
             'metadata': st.lists(st.tuples(st.sampled_from(['authorization', 'x-api-key', 'x-tenant']),
                                            st.text(alphabet='abcXYZ019 =+/', max_size=8)), max_size=3).map(
                 lambda l: [list(t) for t in l]),
